@@ -72,6 +72,17 @@ def impl_eval(case):
                 buf[:len(r)] = r
                 b.write(memoryview(buf)[:len(r)] if i % 2 else buf[:len(r)] if i % 4 else memoryview(buf)[:len(r)].toreadonly())
                 buf[:len(r)] = b'\xa5' * len(r)
+        elif case.get('buf') == 'owned':
+            # every record handed over as the caller's OWN bytearray (the whole object, not a slice): write() may read
+            # it, not change it — the caller still holds the same bytes afterwards, and writes the same object once more
+            keep = None
+            for i, r in enumerate(recs):
+                ba = bytearray(r)
+                b.write(ba)
+                if bytes(ba) != r and keep is None:
+                    keep = f"write() changed the caller's bytearray (record {i}: {len(ba)} of {len(r)} bytes left)"
+            if keep:
+                return {'obs': 'caller-buffer-modified', 'violation': keep, 'tags': ['buf:owned']}
         else:
             for i, r in enumerate(recs):
                 b.write(r)
@@ -153,6 +164,8 @@ def explore(run, tier):
         if rng.random() < 0.1:
             c['buf'] = 'reused'        # bytes-like arguments out of one reused buffer
         elif rng.random() < 0.1:
+            c['buf'] = 'owned'         # each record as the caller's own bytearray, which must come back unchanged
+        elif rng.random() < 0.1:
             c['flush'] = rng.choice([1, 2])       # flush() of the file object after every (second) write
         cases.append(c)
     for n in list(range(0, 40)) + list(range(1000, 1030)) + list(range(2010, 2040)) + list(range(3030, 3040)):
@@ -163,6 +176,9 @@ def explore(run, tier):
         cases.append({'k': 'oneshot', 'n': n})
     for lens in ([65536], [70000], [131073], [1012 * 1100 + 7], [500, 1012 * 1050], [30000, 40000, 1], [1012 * 64, 5]):
         cases.append({'k': 'stream', 'lens': lens, 'fin': 'f'})
+    # the caller's own bytearrays, at every kind of position (write shorter than / equal to / longer than what is left in the block)
+    for lens in ([500, 512, 3], [1012, 5], [100, 912, 1012, 7], [2024, 1], [1500], [1011, 1, 1], [3000, 36, 5], [1, 1011], [4048]):
+        cases.append({'k': 'stream', 'lens': lens, 'fin': 'fsc'[len(lens) % 3], 'buf': 'owned'})
     # flush() between writes, at every kind of position (mid-block, on a block edge, with the trailer pending)
     for lens in ([500, 512, 3], [1012, 5], [100, 912, 1012, 7], [2024, 1], [1, 1, 1], [1011, 1, 1], [3000, 36, 5]):
         for fl in (1, 2):
